@@ -14,6 +14,7 @@ func init() {
 		explain: "Decides the ordering clauses behind 'an interrupted build leaves nothing that breaks the next one': " +
 			"(R18.1) the linker's version stamp is written only after buildLinker returned nil, and the cached linker is reused only under stamp-and-file guards that bind the file's content; " +
 			"(R18.2) invalidate before rewrite: on every path to buildLinker the stamp was found missing or mismatching, or is removed first, so a kill while the binary is being written can never leave a partial binary next to a valid stamp; " +
+			"(R18.5) checkVersion treats any stamp content as 'does not match', never as an error; " +
 			"(R18.3) the directory shared between garble processes is a fresh MkdirTemp of each top-level command (the global is only ever assigned from it or inherited by toolexec children), and nothing garble creates under os.TempDir() has a fixed name; " +
 			"(R18.4) everything written below the cache directory goes through Cache.PutBytes (entries become visible through their index file) or is the linker, written under its lock. " +
 			"Does not decide the effect of a kill at any particular instant, nor the crash behaviour of cmd/go and the cache library.",
@@ -164,6 +165,7 @@ func checkC18(c *Ctx) {
 	}
 
 	ruleFreshSharedDir(c)
+	ruleStampContentNeverAnError(c)
 
 	// R18.4 ---------------------------------------------------------------
 	c.Rule("R18.4", "writes below the cache directory are Cache.PutBytes, or the linker under its lock", 5)
@@ -269,4 +271,31 @@ func ruleFreshSharedDir(c *Ctx) {
 		}
 	}
 
+}
+
+// ruleStampContentNeverAnError is R18.5. A kill can leave the stamp file in any state
+// (os.WriteFile truncates before it writes: an empty stamp beside a complete linker). Whatever
+// the stamp contains, checkVersion must answer "does not match" so that the linker is rebuilt;
+// an error made up from the *content* is returned before the code that removes stamp and
+// binary, and every later build on that cache fails until the file is deleted by hand.
+func ruleStampContentNeverAnError(c *Ctx) {
+	w := c.W
+	c.Rule("R18.5", "checkVersion fails only on I/O errors: no stamp content is an error", 1)
+	cv := w.Fn("linker.checkVersion")
+	if cv == nil {
+		c.Undecided("R18.5", "checkVersion errors", "", "checkVersion not found")
+		return
+	}
+	bad, n := "", 0
+	for _, r := range returnsOf(cv) {
+		res := retResults(r)
+		if len(res) != 2 || isNilConst(res[1]) {
+			continue
+		}
+		n++
+		if how := freshError(w, res[1]); how != "" {
+			bad = "checkVersion returns an error of its own making (" + how + ") at " + w.Pos(r.Pos()) + ": a stamp left empty or garbled by a kill makes every later build fail instead of rebuilding the linker"
+		}
+	}
+	c.Check(bad == "", "R18.5", "checkVersion errors", w.Pos(cv.Pos()), fmt.Sprintf("%d error returns, all passing on an I/O error", n), bad)
 }
